@@ -4,12 +4,15 @@
    verbatim tokens (names, units, number tokens) are clean; the header is ver:"X" with X the escaped version
    text; string and URI literals hold only escapes the grammar's character rule accepts and end at their own
    closing quote; non-finite numbers are spelled INF, -INF, NaN; 3.0-only kinds are refused under 2.0.
-   PARTIAL: conformance of whole documents to the Haystack grammar is judged by the independent reader
+   Whole grids: what the writer emits is accepted by the model of hszinc's own grid rule and denotes the grid written
+   (C04_grid_conforms, _general, _2_0, _datetimes).
+   PARTIAL: conformance of whole documents to the Haystack grammar itself is judged by the independent reader
    (harness/zincspec.py) on every dumped grid, not proved against a grammar relation. *)
 From Coq Require Import String.
 From Coq Require Import List NArith ZArith Bool.
 From HS Require Import Base.Prelude Model.Value Model.Escape Model.Version Model.Json Model.ZincDump Model.ZincParse.
 From HS Require Import Proofs.EscapeP Proofs.ZincParseP Proofs.ZincDumpP Proofs.ZincNumP Proofs.ZincDateP Proofs.ZincListP Proofs.ZincGridP Proofs.ZincDictP Proofs.ZincMetaP Proofs.ZincNestP.
+From HS Require Import Proofs.ZincDateTimeP Proofs.ZincV2P Proofs.ZincMeta2P Proofs.ZincRawP.
 Import ListNotations.
 Open Scope N_scope.
 
@@ -79,6 +82,29 @@ Theorem C04_grid_conforms_general : forall n mps cols rows rts, full_grid_ok n m
   ((2 * n <= length (meta_text mps cols rts))%nat -> zparse_grid (meta_text mps cols rts) = Ok (meta_grid mps cols rows)).
 Proof. exact full_grid_roundtrip. Qed.
 
+(* ... for version 2.0 grids with grid and column metadata: the text written under the pre-3.0 rules is accepted by the 2.0
+   grammar (version gate included) and denotes the grid that was written *)
+Theorem C04_grid_conforms_2_0 : forall mps cols rows rts,
+  Forall mval2 mps -> NoDup (mkeys mps) -> ~ In VERK (mkeys mps) ->
+  cols <> [] -> Forall mcol2 cols -> NoDup (map fst cols) ->
+  Forall2 (grid2_cells_ok (map fst cols)) rows rts ->
+  (forall f, zdump_grid (S (S f)) V20 (map pkv mps) (map (fun c => (fst c, map pkv (snd c))) cols)
+                        (map (fun cells => combine (map fst cols) cells) rows) = Ok (meta_text2 mps cols rts)) /\
+  zparse_grid (meta_text2 mps cols rts) = Ok (meta_grid2 mps cols rows).
+Proof. exact grid2_meta_roundtrip. Qed.
+
+(* ... and with date-time cells: what is written for a date-time in a named zone is accepted as a date-time token carrying
+   exactly the written ISO text and zone name *)
+Theorem C04_grid_conforms_datetimes : forall n mps cols (rows : list (list (hval * hval))) rts,
+  Forall (mv (zv n)) mps -> NoDup (mkeys mps) -> ~ In VERK (mkeys mps) ->
+  cols <> [] -> Forall (mc (zv n)) cols -> NoDup (map fst cols) ->
+  Forall2 (fun cells ts => length cells = length (map fst cols) /\ Forall2 (cellwr n) cells ts) rows rts ->
+  (forall f, zdump_grid (S (S (2 * n + f))) V30 (map pkv mps) (map (fun c => (fst c, map pkv (snd c))) cols)
+                        (map (fun cells => combine (map fst cols) (map fst cells)) rows) = Ok (meta_text mps cols rts)) /\
+  ((2 * n <= length (meta_text mps cols rts))%nat ->
+   zparse_grid (meta_text mps cols rts) = Ok (meta_grid mps cols (map (map snd) rows))).
+Proof. exact full_grid_datetimes. Qed.
+
 Example C04_layout_applies :
   let rows := [[(s_ "a", VStr [34; 10; 44]); (s_ "b", VRef (s_ "r-1") (Some [36; 10]))]; [(s_ "b", VList [VMarker; VUri [96; 10]])]] in
   let cols := [(s_ "a", []); (s_ "b", [(s_ "dis", VStr [10])])] in
@@ -102,3 +128,5 @@ Print Assumptions C04_header.
 Print Assumptions C04_nonfinite.
 Print Assumptions C04_string_literal.
 Print Assumptions C04_version_gate.
+Print Assumptions C04_grid_conforms_2_0.
+Print Assumptions C04_grid_conforms_datetimes.
